@@ -232,3 +232,153 @@ func c12LargeTasks() []mc.Task {
 	}
 	return ts
 }
+
+// ---------------------------------------------------------------- tall alignments
+//
+// Many rows: per-site counters in a narrow integer wrap at 65536 rows; sequence cleaning shared between workers
+// above a row count must keep the order of the rows.  Oracle: the harness's own counts (the cutoffs used - 0, 0.5,
+// 1 - are exact in binary, so count >= cutoff*total is exact in float64 for these sizes).
+
+type c12TallCase struct {
+	Tall  bool   `json:"tall"`
+	Op    string `json:"op"` // gapsites0 | gapsites | charsites1 | gapseqs
+	N     int    `json:"rows"`
+	Procs int    `json:"gomaxprocs,omitempty"`
+}
+
+func c12TallRows(n int, seqsMode bool) []string {
+	out := make([]string, n)
+	for i := range out {
+		if seqsMode {
+			// 4 sites; every 3rd row is mostly gaps (removed at cutoff 0.5), in a pattern that does not follow block borders
+			if i%3 == 1 || i%250 == 7 {
+				out[i] = "---" + string("ACGT"[i%4])
+			} else {
+				out[i] = string([]byte{"ACGT"[i%4], "ACGT"[(i/4)%4], "ACGT"[(i/16)%4], "ACGT"[(i/64)%4]})
+			}
+			continue
+		}
+		// 3 sites: site 0 has gaps in its first 10 rows, site 1 is all gaps, site 2 is A but for 10 rows of C
+		s := []byte{'C', '-', 'A'}
+		if i < 10 {
+			s[0] = '-'
+		}
+		if i >= n-10 {
+			s[2] = 'C'
+		}
+		out[i] = string(s)
+	}
+	return out
+}
+
+func c12TallCheck(c *mc.Ctx, cs c12TallCase) {
+	c.Eval()
+	viol := func(clause, desc string) {
+		c.Violation("C12/tall/"+cs.Op+"/"+clause, fmt.Sprintf("%s on %d rows (GOMAXPROCS %d): %s", cs.Op, cs.N, cs.Procs, desc), cs)
+	}
+	rowsIn := c12TallRows(cs.N, cs.Op == "gapseqs")
+	build := func() (align.Alignment, error) {
+		al := align.NewAlign(align.NUCLEOTIDS)
+		for i, s := range rowsIn {
+			if err := al.AddSequence(fmt.Sprintf("r%06d", i), s, ""); err != nil {
+				return nil, err
+			}
+		}
+		return al, nil
+	}
+	if cs.Op == "gapseqs" {
+		var want []string
+		for i, s := range rowsIn {
+			if strings.Count(s, "-")*2 < len(s) {
+				want = append(want, fmt.Sprintf("r%06d=%s", i, s))
+			}
+		}
+		if cs.Procs > 0 {
+			defer runtime.GOMAXPROCS(runtime.GOMAXPROCS(cs.Procs))
+		}
+		mc.SchedProbeJudged(c, "C12/tall/gapseqs", fmt.Sprintf("RemoveGapSeqs(0.5) on %d rows, GOMAXPROCS %d", cs.N, cs.Procs), 1, cs, func() any {
+			al, err := build()
+			if err != nil {
+				return "build: " + err.Error()
+			}
+			al.RemoveGapSeqs(0.5, false)
+			var got []string
+			for _, r := range readRows(al) {
+				got = append(got, r.Name+"="+r.Seq)
+			}
+			return strings.Join(got, ";")
+		}, func(a, b any) bool { return a == b }, func(first any) string {
+			if first != strings.Join(want, ";") {
+				g := strings.Split(fmt.Sprint(first), ";")
+				for i := range want {
+					if i >= len(g) || g[i] != want[i] {
+						return fmt.Sprintf("%d rows kept, %d expected; row %d of the result differs from the %d-th row to keep (%s)", len(g), len(want), i, i, want[i])
+					}
+				}
+				return fmt.Sprintf("%d rows kept, %d expected", len(g), len(want))
+			}
+			return ""
+		})
+		c.Nontrivial(fmt.Sprintf("tall|%v", cs))
+		return
+	}
+	al, err := build()
+	if err != nil {
+		c.Fatal("cannot build %d rows: %v", cs.N, err)
+		return
+	}
+	if cs.Procs > 0 {
+		defer runtime.GOMAXPROCS(runtime.GOMAXPROCS(cs.Procs))
+	}
+	var kept, rm []int
+	var want []int
+	if pn, msg := mc.Guard(func() {
+		switch cs.Op {
+		case "gapsites0": // cutoff 0: sites with at least one gap
+			_, _, kept, rm = al.RemoveGapSites(0, false)
+			want = []int{0, 1}
+		case "gapsites": // cutoff 0.5: 10 gaps of n is below, n of n above
+			_, _, kept, rm = al.RemoveGapSites(0.5, false)
+			want = []int{1}
+		case "charsites1": // cutoff 1, character A: n-10 of n is below 1
+			_, _, kept, rm = al.RemoveCharacterSites([]uint8{'A'}, 1, false, false, false, false, false)
+			want = nil
+		}
+	}); pn {
+		viol("panic", msg)
+		return
+	}
+	if fmt.Sprint(rm) != fmt.Sprint(want) && !(len(rm) == 0 && len(want) == 0) {
+		viol("decision", fmt.Sprintf("removed sites %v, counting the rows gives %v", rm, want))
+		return
+	}
+	if len(kept)+len(rm) != 3 || al.Length() != len(kept) {
+		viol("partition", fmt.Sprintf("kept %v removed %v Length() %d", kept, rm, al.Length()))
+		return
+	}
+	c.Nontrivial(fmt.Sprintf("tall|%v", cs))
+	c.Outcome("tall:" + cs.Op + ":ok")
+}
+
+func c12TallTasks() []mc.Task {
+	var ts []mc.Task
+	ts = append(ts, mc.Task{Name: "tall#sites", Run: func(c *mc.Ctx) {
+		for _, n := range []int{255, 256, 257, 32767, 32768, 65535, 65536, 65537, 65546, 131082} {
+			for _, op := range []string{"gapsites0", "gapsites", "charsites1"} {
+				c12TallCheck(c, c12TallCase{Tall: true, Op: op, N: n})
+			}
+			if c.Expired() {
+				return
+			}
+		}
+	}})
+	for _, procs := range []int{2, 4} {
+		procs := procs
+		ts = append(ts, mc.Task{Name: fmt.Sprintf("tall#seqs/procs%d", procs), Run: func(c *mc.Ctx) {
+			for _, n := range []int{999, 1000, 1001, 4000} {
+				c12TallCheck(c, c12TallCase{Tall: true, Op: "gapseqs", N: n, Procs: procs})
+			}
+		}})
+	}
+	return ts
+}
